@@ -907,6 +907,14 @@ fn run_truncate(
         out.fail = Some(f);
         return out;
     }
+    if oracle::has_fatal(&ru.stderr) {
+        // A fatal input error in the untruncated run (e.g. an offset-to-next out of range further on): the
+        // collector ignores what arrives after it, so which findings of the earlier packets were counted
+        // depends on scheduling (known finding, C15) - there is no reference to compare prefixes with.
+        out.nontrivial = false;
+        out.labels.push("excluded:fatal-in-untruncated-run".into());
+        return out;
+    }
     let u_errs = oracle::error_msgs(&ru.stderr);
     let u_rows: Vec<String> = ru.stdout_str().lines().map(|l| l.to_string()).collect();
     for &k in cuts {
